@@ -191,6 +191,13 @@ std::string opGenGame(const std::vector<std::string>& a) {
                     else w = 10;
                 }
             }
+            if (style & 128) {          // capture-free king walks among advancing pawns
+                bool king = pc == Piece::WKING || pc == Piece::BKING;
+                if (capture) w = 1;
+                else if (king) w = (i >= 2) ? 250 : 20;
+                else if (pawn) w = 120;
+                else w = 5;
+            }
             idx.push_back(k); wt.push_back(w);
         }
         if (idx.empty()) break;
